@@ -30,7 +30,7 @@ func c01Menu(w *mintops.W) []string {
 			ops = append(ops, fmt.Sprintf("melt|%d|%d|S", j, i), fmt.Sprintf("melt|%d|%d|P", j, i), fmt.Sprintf("melt|%d|%d|F|N", j, i))
 		}
 		if np == 2 {
-			ops = append(ops, fmt.Sprintf("melt|%d|0,0|S", j))
+			ops = append(ops, fmt.Sprintf("melt|%d|0,0|S", j), fmt.Sprintf("melt|%d|0,1|P", j), fmt.Sprintf("melt|%d|0,1|S", j))
 		}
 		if m.Known == "none" {
 			ops = append(ops, fmt.Sprintf("pollm|%d|S", j), fmt.Sprintf("pollm|%d|F", j), fmt.Sprintf("pollm|%d|P", j))
@@ -66,9 +66,9 @@ func init() {
 			runSpecs(c, c01Specs(c.Quick()))
 			c.Cov["rule_schedules"] = "E1: for each scenario every interleaving of the concurrent API calls at MintDB / Lightning call granularity with at most B preemptions (iterative bounding 0..B); oracle per execution: each secret consumed by at most one successful operation (swap returned signatures / melt's payment succeeded or is in flight at the backend), consumed proofs end SPENT or PENDING, state checks monotone, no value created"
 			if c.Quick() {
-				runSched(c, "C01", []string{"S1-swap-swap", "S2-swap-melt", "S3-melt-melt", "S5-swap-swapvariant", "S6-pendingmelt-poll-swap", "S8p-swap-melt-pending", "S8f-swap-melt-failed"}, 2)
+				runSched(c, "C01", []string{"S1-swap-swap", "S2-swap-melt", "S3-melt-melt", "S5-swap-swapvariant", "S6-pendingmelt-poll-swap", "S8p-swap-melt-pending", "S8f-swap-melt-failed", "S10-melt-poll-swap"}, 2)
 			} else {
-				runSched(c, "C01", []string{"S1-swap-swap", "S2-swap-melt", "S3-melt-melt", "S4-swap-melt-check", "S5-swap-swapvariant", "S6-pendingmelt-poll-swap", "S6f-pendingmelt-failed-poll-swap", "S8p-swap-melt-pending", "S8f-swap-melt-failed", "S9-two-input-overlap"}, 3)
+				runSched(c, "C01", []string{"S1-swap-swap", "S2-swap-melt", "S3-melt-melt", "S4-swap-melt-check", "S5-swap-swapvariant", "S6-pendingmelt-poll-swap", "S6f-pendingmelt-failed-poll-swap", "S8p-swap-melt-pending", "S8f-swap-melt-failed", "S9-two-input-overlap", "S10-melt-poll-swap"}, 3)
 				runSched(c, "C01", []string{"S7-swap-swap-melt"}, 2)
 			}
 		},
